@@ -1,5 +1,6 @@
 """Visualise HUGR using graphviz."""
 
+import re
 from collections.abc import Iterable
 from dataclasses import dataclass, field
 from html import escape
@@ -13,6 +14,17 @@ from hugr.ops import AsExtOp
 from hugr.tys import CFKind, ConstKind, FunctionKind, Kind, OrderKind, ValueKind
 
 from .node_port import InPort, Node, OutPort
+
+
+# Characters that cannot occur in the XML of an HTML-like label, not even escaped.
+_NOT_XML_CHARS = re.compile("[\x00-\x08\x0b\x0c\x0e-\x1f\ufffe\uffff]")
+
+
+def _label_text(text: str) -> str:
+    """Text for an HTML-like label: markup characters escaped, characters that
+    the label syntax cannot represent replaced by U+FFFD.
+    """
+    return escape(_NOT_XML_CHARS.sub("\ufffd", text), quote=False)
 
 
 @dataclass(frozen=True)
@@ -212,7 +224,7 @@ class DotRenderer:
         meta = hugr[node].metadata
         if len(meta) > 0:
             data = "<BR/><BR/>" + "<BR/>".join(
-                escape(f"{key}: {value}", quote=False) for key, value in meta.items()
+                _label_text(f"{key}: {value}") for key, value in meta.items()
             )
         else:
             data = ""
@@ -234,7 +246,7 @@ class DotRenderer:
         else:
             op_name = op.name()
         # names and metadata are text inside an HTML-like label
-        op_name = escape(op_name, quote=False)
+        op_name = _label_text(op_name)
         if hugr.children(node):
             with graph.subgraph(name=f"cluster{node.idx}") as sub:
                 for child in hugr.children(node):
